@@ -14,6 +14,10 @@ def exhaustive(ctx, pid):
         ctx.cov["states"] = ctx.cov["transitions"] = 1
         return
     ctx.tlc_mc("Tran.tla", "Tran_quick.cfg", timeout=600)
+    if pid == "C03" or ctx.thorough():
+        # with client rollbacks, tick (max age) aborts and exclusive pre-emption at any moment:
+        # an aborted transaction leaves no visible change
+        ctx.tlc_mc("Tran.tla", "Tran_aborts.cfg", timeout=1200)
     if ctx.thorough():
         ctx.tlc_mc("Tran.tla", "Tran_thorough.cfg", timeout=2400)
     cfg, inv = DEV[pid]
